@@ -291,6 +291,49 @@ def http_suite(ctx):
                             ctx.violation('%s: option %s is %r at the manifest but %r in the %s %s URL' % (url, o.cgi_name, a, b, ctype, attr),
                                           {'url': url, 'option': o.cgi_name})
             ctx.nontriv(url)
+        # error positions given as a wall-clock time are rewritten into segment numbers for the media URLs: the number written into
+        # the URLs of a track must address, IN THAT TRACK'S OWN NUMBERING, the segment holding the instant (video: exactly; audio:
+        # the segment or its neighbour - the known finding C16 time-position-segment:aerr); hours after the start the audio and
+        # video numberings are many segments apart
+        from .. import boxwalk
+        import datetime as _dt
+        now = utc(2024, 3, 5, 12, 0, 7)
+        for optname, track, ext, ctype_want, slack in (('verr', 'bbb_v7', 'm4v', 'video', 0), ('aerr', 'bbb_a1', 'm4a', 'audio', 1)):
+            for back in (20, 35, 50):
+                tm = now - _dt.timedelta(seconds=back)
+                url = '/dash/live/bbb/hand_made.mpd?start=today&depth=60&%s=503=%s' % (optname, tm.strftime('%Y-%m-%dT%H:%M:%SZ'))
+                r = c.get(url)
+                ctx.count('http:manifest-time-position')
+                if r.status_code != 200:
+                    ctx.dist('manifest-status:%d' % r.status_code)
+                    continue
+                mpd = Mpd(r.data, 'http://localhost' + url)
+                inp = {'url': url, 'now': now.isoformat()}
+                for rep in mpd.representations():
+                    st = rep['template']
+                    if st is None or rep['adp'].get('contentType') != ctype_want or rep['rep'].get('id') != track:
+                        continue
+                    m_ = re.search(optname + r'=503(?:%3D|=)(\d+)(?![\d:-])', st.get('media') or '')
+                    if not m_:
+                        ctx.violation('%s: the %s URLs of %s do not carry the error position' % (url, ctype_want, track), inp)
+                        continue
+                    k = int(m_.group(1))
+                    rr = c.get('/dash/live/bbb/%s/%d.%s?start=today&depth=60' % (track, k, ext))
+                    if rr.status_code != 200:
+                        ctx.violation('%s: %s=503=<%d s ago> is rewritten to segment %d of %s, which is not available (%d)'
+                                      % (url, optname, back, k, track, rr.status_code), inp)
+                        continue
+                    sm = boxwalk.segment_summary(rr.data)
+                    with env.app.app_context():
+                        ts = env.models.MediaFile.get(name=track).representation.timescale
+                    inst = (12 * 3600 + 7 - back) * ts
+                    lo, hi = sm['tfdt'] - slack * sm['duration'], sm['tfdt'] + (1 + slack) * sm['duration']
+                    if not lo <= inst < hi:
+                        ctx.violation('%s: the instant %d s ago (%d ticks) is rewritten to segment %d of %s, which spans %d..%d: %.1f segments away'
+                                      % (url, back, inst, k, track, sm['tfdt'], sm['tfdt'] + sm['duration'],
+                                         (inst - sm['tfdt']) / max(1, sm['duration'])), inp)
+                    else:
+                        ctx.nontriv((url, track))
     env.close()
 
 
